@@ -94,6 +94,9 @@ func setupC05(x *Ctx) {
 		kinds = c05Disturb[:7]
 	} else if x.Feat(FeatPartition) {
 		kinds = append(append([]string(nil), c05Disturb...), "partition-heal")
+		if x.Feat(FeatNetVariety) {
+			kinds = append(kinds, "write-stall")
+		}
 	}
 	for i := 0; i < nDist; i++ {
 		dist = append(dist, kinds[x.Choose("disturbance", len(kinds))])
@@ -189,6 +192,23 @@ func setupC05(x *Ctx) {
 				x.Probe(d)
 				simrt.Sleep(time.Duration([]int{0, 1, 5, 30, 130}[x.Choose("downtime", 5)]) * time.Second)
 				b.restart(a)
+			case "write-stall":
+				// the sending direction of every connection of A blocks for a while (peer
+				// window closed); beyond the 10 s write deadline the connection must go
+				d := time.Duration([]int{2, 8, 12, 30}[x.Choose("stall-s", 4)]) * time.Second
+				for _, cn := range live {
+					cn := cn
+					if cn.Node() == "A" {
+						cn.SetStall(true)
+						x.S.After(d, "unstall "+cn.Name(), "", func() { cn.SetStall(false) })
+					} else if cn.Peer().Node() == "A" {
+						p := cn.Peer()
+						p.SetStall(true)
+						x.S.After(d, "unstall "+p.Name(), "", func() { p.SetStall(false) })
+					}
+				}
+				x.Probe("write-stall")
+				simrt.Sleep(d)
 			case "partition-heal":
 				d := time.Duration([]int{2, 20, 55, 70, 130}[x.Choose("partition-s", 5)]) * time.Second
 				partitionUntil.Store(int64(x.S.Now() + d))
